@@ -82,6 +82,7 @@ func (s *Durable) store(tx *buntdb.Tx, key string, t Value) {
 	}
 
 	tx.Set(key, t.encode(), opts)
+	s.cache.Del(binary.ToBytes(key))
 }
 
 // Fetch fetches the item either from transaction or cache.
